@@ -280,7 +280,8 @@ def check_first_parse(ctx, rng):
             ctx.violation('wellformed-value', {'data': data.decode('utf-8')}, f'{name}: {got!r} vs {v!r}', cls)
 
 
-HOSTILE = [b'BEGIN:VCALENDAR\r\nBEGIN:VEVENT\r\nURL:a\\\\,b\r\nEND:VEVENT\r\nEND:VCALENDAR\r\n',
+HOSTILE = [b'BEGIN:VCALENDAR\r\nBEGIN:VEVENT\r\nDTSTART:08000102T030405Z\r\nDTEND:00010101T000000\r\nRDATE;VALUE=DATE:09991231,00010101\r\nDUE;VALUE=DATE:00990101\r\nEND:VEVENT\r\nBEGIN:X-OLD\r\nDTSTART:00010101T000000\r\nEND:X-OLD\r\nEND:VCALENDAR\r\n',
+           b'BEGIN:VCALENDAR\r\nBEGIN:VEVENT\r\nURL:a\\\\,b\r\nEND:VEVENT\r\nEND:VCALENDAR\r\n',
            b'BEGIN:VCALENDAR\r\nBEGIN:VEVENT\r\nSUMMARY:a\\\\,b\\\\n\\n%2C\r\nCATEGORIES:a\\,b,c\\\\,d\r\nEND:VEVENT\r\nEND:VCALENDAR\r\n',
            b'BEGIN:VCALENDAR\r\nBEGIN:VEVENT\r\nATTENDEE;CN="a\\,b":mailto:x\r\nEND:VEVENT\r\nEND:VCALENDAR\r\n',
            b'BEGIN:VCALENDAR\r\nBEGIN:VEVENT\r\nX-A:50%2C\r\nURL:50%2C\r\nEND:VEVENT\r\nEND:VCALENDAR\r\n',
